@@ -415,6 +415,9 @@ func runWorkload(t *testing.T, bin, base string, w workload, killRand *rand.Rand
 				// metainfo: 200 (+ valid) directly or after 202
 				n := len(o.Statuses)
 				switch {
+				case o.Still202AfterRefreshes:
+					addF("metainfo-still-202-after-3-completed-refreshes/"+wk, map[string]interface{}{"name": name, "statuses": len(o.Statuses),
+						"backend_downloads_served": o.RefreshDownloads, "torrentmeta_sidecar_before_recovery": string(sidecar[cacheDir(name)+"/_torrentmeta"])})
 				case o.StillPending:
 					res.inconclusive = append(res.inconclusive, fmt.Sprintf("workload %d %s: metainfo request for %s still 202 after the watchdog", w.idx, caseID, name[:8]))
 				case n > 0 && o.Statuses[n-1] == 200:
@@ -493,7 +496,7 @@ func TestC05(t *testing.T) {
 	defer run.Finish()
 	run.Assume("process-crash model: completed system calls persist, nothing later happens; no torn single writes, no reordering (not a power-loss model)")
 	run.Assume("strace decoding and the fsrec replayer are trusted; re-validated on every run by the full-log fidelity check and by real SIGKILL cross-validation (contents of _last_access_time sidecars are not compared across runs; runs whose temporary upload names differ by their random uuid are compared with the replay of their own log)")
-	run.Assume("after the restart the scripted storage backend holds every blob of the workload (uploads are assumed written back or re-pushed by the client); single-origin hash ring; background cleanup disabled; 202 polling uses wall-clock sleeps only as a watchdog (still pending => inconclusive)")
+	run.Assume("after the restart the scripted storage backend holds every blob of the workload (uploads are assumed written back or re-pushed by the client); single-origin hash ring; background cleanup disabled; a metainfo request that still answers 202 after 3 completed refreshes of the digest (counted at the scripted backend) is a violation; wall-clock only as a watchdog for a refresh that never completes (inconclusive)")
 
 	base := ev.TempDir(t, "c05-")
 	bin := filepath.Join(base, "c05child")
